@@ -134,11 +134,15 @@ void *zone_malloc(zone_malloc_t *gdata, size_t size)
     int nb_units;
     zone_malloc_chunk_list_t* fl;
 
-    nb_units = (size + gdata->unit_size - 1) / gdata->unit_size;
+    /* Round up in size_t without wrapping, and reject what cannot fit in the
+     * zone before narrowing to int: a truncated count would be served as a
+     * small (or negative) request. */
+    size_t want_units = size / gdata->unit_size + ((size % gdata->unit_size) ? 1 : 0);
 
-    if (nb_units == 0) {
+    if (want_units == 0 || want_units > (size_t)gdata->max_segment) {
         return NULL;
     }
+    nb_units = (int)want_units;
 
     parsec_atomic_lock(&gdata->lock);
     /* try to find the smallest possible element, or one size larger */
